@@ -165,6 +165,8 @@ def executable_lines():
 
         def walk(c, name):
             lines = {l for _, _, l in c.co_lines() if l}
+            if name != "<module>":
+                lines.discard(c.co_firstlineno)      # the 'def' line runs at definition time
             funcs.setdefault(name, set()).update(lines)
             for k in c.co_consts:
                 if isinstance(k, types.CodeType):
@@ -402,7 +404,11 @@ def report(prop, tier, seed, mod, agg, wall):
         cov["notes"] = agg["notes"][:10]
     try:
         ex = executable_lines()
-        anchors = set(getattr(mod, "ANCHOR_FILES", ()))
+        anchors = set()
+        for l in open(os.path.join(VERIF, "properties.jsonl")):
+            pj = json.loads(l)
+            if pj["id"] == prop:
+                anchors = set(pj["anchors"]["files"])
         reach = {}
         for f, funcs in ex.items():
             hit = agg.get("reach", {}).get(f, set())
@@ -412,6 +418,9 @@ def report(prop, tier, seed, mod, agg, wall):
                                and not q.rsplit(".", 1)[-1][:1].isupper())
             reach[f] = dict(function_lines_executed=len(tot & hit), function_lines_total=len(tot),
                             functions_never_entered=unreached[:25])
+            if "eyecite/" + f in anchors:
+                reach[f]["anchored_file"] = True
+                reach[f]["lines_not_executed"] = sorted(tot - hit)[:80]
         cov["eyecite_code_reached"] = reach
     except Exception as e:  # evidence nicety only
         cov["eyecite_code_reached"] = {"error": str(e)[:100]}
